@@ -84,41 +84,46 @@ fn c14_dye_rows() {
 
 /// which dye table a material carries is chosen by its table-dimension byte: 0 = legacy (16 rows of
 /// 2 bytes), 0x50..=0x5F = Dawntrail (32 rows of 4 bytes), anything else = opaque (nothing read)
-#[kani::proof]
-#[kani::unwind(40)]
-fn c14_dye_table_kind_dispatch() {
+fn dye_kind(logs: u8) {
     let b: [u8; 132] = kani::any();
     let mut c = Cursor::new(&b[..]);
-    match parse_color_dye_table(&mut c, binrw::Endian::Little, (0x5F,)).unwrap() {
+    let t = parse_color_dye_table(&mut c, binrw::Endian::Little, (logs,)).unwrap();
+    let want_dawntrail = logs >= 0x50 && logs <= 0x5F;
+    match t {
         Some(ColorDyeTable::DawntrailColorDyeTable(t)) => {
+            assert!(want_dawntrail);
             assert_eq!(t.rows.len(), 32);
             let w = u32::from_le_bytes([b[124], b[125], b[126], b[127]]);
             assert_eq!(t.rows[31].template as u32, (w >> 16) & 0x7FF);
+            assert_eq!(c.position(), 128);
             core::mem::forget(t);
         }
-        _ => panic!("0x5F must select the Dawntrail dye table"),
+        Some(ColorDyeTable::LegacyColorDyeTable(t)) => {
+            assert!(logs == 0);
+            assert_eq!(t.rows.len(), 16);
+            assert_eq!(c.position(), 32);
+            core::mem::forget(t);
+        }
+        Some(ColorDyeTable::OpaqueColorDyeTable(_)) => {
+            assert!(!want_dawntrail && logs != 0);
+            assert_eq!(c.position(), 0);
+        }
+        None => panic!("a dye table kind is always selected"),
     }
-    assert_eq!(c.position(), 128);
-    let mut c = Cursor::new(&b[..]);
-    match parse_color_dye_table(&mut c, binrw::Endian::Little, (0x50,)).unwrap() {
-        Some(ColorDyeTable::DawntrailColorDyeTable(t)) => { assert_eq!(t.rows.len(), 32); core::mem::forget(t); }
-        _ => panic!("0x50 must select the Dawntrail dye table"),
-    }
-    assert_eq!(c.position(), 128);
-    let mut c = Cursor::new(&b[..]);
-    match parse_color_dye_table(&mut c, binrw::Endian::Little, (0,)).unwrap() {
-        Some(ColorDyeTable::LegacyColorDyeTable(t)) => { assert_eq!(t.rows.len(), 16); core::mem::forget(t); }
-        _ => panic!("0 must select the legacy dye table"),
-    }
-    assert_eq!(c.position(), 32);
-    let mut c = Cursor::new(&b[..]);
-    match parse_color_dye_table(&mut c, binrw::Endian::Little, (0x42,)).unwrap() {
-        Some(ColorDyeTable::OpaqueColorDyeTable(_)) => {}
-        _ => panic!("0x42 must select the opaque dye table"),
-    }
-    assert_eq!(c.position(), 0);
     kani::cover!(true);
 }
+#[kani::proof]
+#[kani::unwind(40)]
+fn c14_dye_table_kind_5f() { dye_kind(0x5F); }
+#[kani::proof]
+#[kani::unwind(40)]
+fn c14_dye_table_kind_50() { dye_kind(0x50); }
+#[kani::proof]
+#[kani::unwind(40)]
+fn c14_dye_table_kind_legacy() { dye_kind(0); }
+#[kani::proof]
+#[kani::unwind(40)]
+fn c14_dye_table_kind_opaque() { dye_kind(0x42); }
 
 #[kani::proof]
 #[kani::unwind(6)]
